@@ -948,6 +948,28 @@ def run(tier):
             if bt[2:4] != at[2:4] or canon_model_parse(st, bt[4]) != got:
                 rep.tie_broken(f"model parser differs from carquet's on written bytes: {first_diff(canon_model_parse(st, bt[4]), got)}", li)
         good.append((st, m, data))
+    # the definitions the theorems are stated with (wf, norm, to_tval in ParquetMetaSem.v) against the
+    # independent ones of this file, on every generated structure
+    sem_lines = ["sem %s %s" % (st, mtext(m)) for st, m in cases]
+    sem_out, p4 = run_sharded(run_, sem_lines)
+    lap("model semantics")
+    for pr in p4:
+        rep.tie_broken(f"model runner died on sem (rc={pr[1]}): {pr[2][-300:]}", pr[3])
+    nwf = 0
+    for (st, m), li, a in zip(cases, sem_lines, sem_out):
+        rep.count(li)
+        t = a.split()
+        if len(t) != 4 or t[0] != "OK":
+            rep.tie_broken(f"sem failed: {a[:200]}", li)
+            continue
+        nwf += t[1] == "1"
+        if t[1] != "1":
+            rep.tie_broken("a generated structure is outside the Coq domain wf (the round-trip theorems would not apply to it)", li)
+        if canon_model_parse(st, t[2]) != mtext(NORM[st](m)):
+            rep.tie_broken(f"Coq norm differs from the oracle's norm: {first_diff(canon_model_parse(st, t[2]), mtext(NORM[st](m)))}", li)
+        if t[3] != tr.to_text(TV[st](m)):
+            rep.tie_broken(f"Coq to_tval differs from the oracle's expected Thrift value: {first_diff(t[3], tr.to_text(TV[st](m)))}", li)
+    dist["sem:in_wf"] = nwf
     if good:
         rep.sample({"op": "rtph", "m": mtext([g for g in good if g[0] == "ph"][0][1])[:400]})
         rep.sample({"op": "rtfm", "m": mtext([g for g in good if g[0] == "fm"][-1][1])[:400]})
